@@ -101,7 +101,7 @@ def load_known():
             if not l or l.startswith("#"):
                 continue
             if l.startswith("known:"):
-                body, _, what = l[6:].partition("::")
+                body, _, what = l[6:].partition(" :: ")
                 kv = parse_kv(body)
                 kv["what"] = what.strip()
                 known.append(kv)
@@ -201,7 +201,7 @@ def run_limited(cmd, cwd, env, timeout, mem_gb, log_path):
 
 
 CHECK_RE = re.compile(
-    r"^Check (\d+): (\S+)\n\t - Status: (\w+)\n\t - Description: \"(.*)\"\n\t - Location: (.*)$",
+    r"^Check (\d+): (.+)\n\t - Status: (\w+)\n\t - Description: \"(.*)\"\n\t - Location: (.*)$",
     re.M)
 
 
